@@ -513,5 +513,5 @@ LEVEL_TEXT = ("Every generated hostile input is parsed through the real entry po
               "sys.monitoring); any exception other than ValueError from from_ical, any exception from to_ical()/walk() of the result, or more than 10^7 steps is "
               "a violation. Separately, each line of a list of unmistakably unparsable lines is inserted at a random position of a VEVENT / strict component of a "
               "well-formed calendar and the tree must be unchanged apart from one errors entry / the parse must fail with ValueError. A RAISE recorder reports "
-              "which error sites inside the library were driven.")
+              "which error sites inside the library were driven. A grammar of numeric boundary values per RFC value type feeds both the escape monitor and the isolation oracle.")
 LEVEL_NOTE = "trusts sys.monitoring's event delivery; the budget 10^7 is a calibrated constant (DESIGN.md C04); wall clock only yields 'inconclusive'"
